@@ -40,6 +40,19 @@ theorem Frame.rfl' (s : St) : Frame s s := ⟨rfl, rfl, rfl, rfl⟩
 theorem Frame.trans {a b c : St} (h1 : Frame a b) (h2 : Frame b c) : Frame a c :=
   ⟨h2.loops.trans h1.loops, h2.calls.trans h1.calls, h2.drum.trans h1.drum, h2.jumps.trans h1.jumps⟩
 
+/-- the same without the drum flag (which a `FLG` command at the top level of a track changes) -/
+structure FrameX (s s' : St) : Prop where
+  loops : s'.loops = s.loops
+  calls : s'.calls = s.calls
+  jumps : s'.jumps = s.jumps
+
+theorem Frame.x {s s' : St} (f : Frame s s') : FrameX s s' := ⟨f.loops, f.calls, f.jumps⟩
+theorem FrameX.rfl' (s : St) : FrameX s s := ⟨rfl, rfl, rfl⟩
+theorem FrameX.trans {a b c : St} (h1 : FrameX a b) (h2 : FrameX b c) : FrameX a c :=
+  ⟨h2.loops.trans h1.loops, h2.calls.trans h1.calls, h2.jumps.trans h1.jumps⟩
+theorem FrameX.frame {s s' : St} (f : FrameX s s') (hd : s'.drum = s.drum) : Frame s s' :=
+  ⟨f.loops, f.calls, hd, f.jumps⟩
+
 /-! ### tick strings -/
 
 def noteTicks (ty n : Nat) : List Tk :=
@@ -73,30 +86,73 @@ theorem step_restRep {s : St} {r : Nat} (h : seq[s.pc]? = some mds_REST) (hr : s
   simp [step, rd, h, hr, mds_REST]
 
 theorem step_noteLen {s : St} {ty l : Nat} (h : seq[s.pc]? = some ty) (h1 : 0x81 ≤ ty) (h2 : ty < 0xe0)
-    (hl : seq[s.pc + 1]? = some l) (hl' : l < 0x80) (hd : s.drum = false) :
+    (hl : seq[s.pc + 1]? = some l) (hl' : l < 0x80) (hd : s.drum = false ∨ ty < mds_NOTE) :
     step seq base mj s = .ok (emitNote { s with pc := s.pc + 2, lastNote := some l } ty (l + 1)) := by
   have a1 : ¬ ty < 128 := by omega
   have a2 : ¬ ty = 128 := by omega
   have a3 : ty < 224 := by omega
-  simp [step, rd, h, hl, hl', hd, a1, a2, a3, mds_REST, mds_SLR]
+  have a4 : ¬ (s.drum = true ∧ ty ≥ mds_NOTE) := by
+    rintro ⟨x, y⟩; rcases hd with hd | hd
+    · rw [hd] at x; cases x
+    · omega
+  simp [step, rd, h, hl, hl', a1, a2, a3, a4, mds_REST, mds_SLR]
 
 theorem step_noteBare {s : St} {ty l n : Nat} (h : seq[s.pc]? = some ty) (h1 : 0x81 ≤ ty) (h2 : ty < 0xe0)
-    (hl : seq[s.pc + 1]? = some l) (hl' : ¬ l < 0x80) (hn : s.lastNote = some n) (hd : s.drum = false) :
+    (hl : seq[s.pc + 1]? = some l) (hl' : ¬ l < 0x80) (hn : s.lastNote = some n) (hd : s.drum = false ∨ ty < mds_NOTE) :
     step seq base mj s = .ok (emitNote { s with pc := s.pc + 1 } ty (n + 1)) := by
   have a1 : ¬ ty < 128 := by omega
   have a2 : ¬ ty = 128 := by omega
   have a3 : ty < 224 := by omega
-  simp [step, rd, h, hl, hl', hd, hn, a1, a2, a3, mds_REST, mds_SLR]
+  have a4 : ¬ (s.drum = true ∧ ty ≥ mds_NOTE) := by
+    rintro ⟨x, y⟩; rcases hd with hd | hd
+    · rw [hd] at x; cases x
+    · omega
+  simp [step, rd, h, hl, hl', hn, a1, a2, a3, a4, mds_REST, mds_SLR]
+
+/-- a note byte with the drum flag set: the routine is called, the note's length and the caller's
+registers go on the call stack -/
+theorem step_drumLen {s : St} {ty l t : Nat} (h : seq[s.pc]? = some ty) (h1 : mds_NOTE ≤ ty) (h2 : ty < 0xe0)
+    (hl : seq[s.pc + 1]? = some l) (hl' : l < 0x80) (hd : s.drum = true)
+    (ht : slotTarget seq base (ty - mds_NOTE) = some t) :
+    step seq base mj s = .ok { s with pc := t, lastNote := none, lastRest := none,
+                                      calls := (s.pc + 2, some (l + 1, some l, s.lastRest)) :: s.calls } := by
+  have h1' : 130 ≤ ty := h1
+  have a1 : ¬ ty < 128 := by omega
+  have a2 : ¬ ty = 128 := by omega
+  have a3 : ty < 224 := by omega
+  have a4 : ty ≥ mds_NOTE := h1
+  simp [step, rd, h, hl, hl', hd, a1, a2, a3, a4, ht, mds_REST, mds_SLR]
+
+theorem step_drumBare {s : St} {ty l n t : Nat} (h : seq[s.pc]? = some ty) (h1 : mds_NOTE ≤ ty) (h2 : ty < 0xe0)
+    (hl : seq[s.pc + 1]? = some l) (hl' : ¬ l < 0x80) (hn : s.lastNote = some n) (hd : s.drum = true)
+    (ht : slotTarget seq base (ty - mds_NOTE) = some t) :
+    step seq base mj s = .ok { s with pc := t, lastNote := none, lastRest := none,
+                                      calls := (s.pc + 1, some (n + 1, some n, s.lastRest)) :: s.calls } := by
+  have h1' : 130 ≤ ty := h1
+  have a1 : ¬ ty < 128 := by omega
+  have a2 : ¬ ty = 128 := by omega
+  have a3 : ty < 224 := by omega
+  have a4 : ty ≥ mds_NOTE := h1
+  simp [step, rd, h, hl, hl', hd, hn, a1, a2, a3, a4, ht, mds_REST, mds_SLR]
+
+/-- the end of a drum routine: its note sounds with the caller's length, the caller's registers
+come back -/
+theorem step_dmfinish {s : St} {k ret len : Nat} {ln lr : Option Nat}
+    {cs : List (Nat × Option (Nat × Option Nat × Option Nat))}
+    (h : seq[s.pc]? = some mds_DMFINISH) (h1 : seq[s.pc + 1]? = some k) (hc : s.calls = (ret, some (len, ln, lr)) :: cs) :
+    step seq base mj s =
+      .ok (emitNote { s with pc := ret, calls := cs, lastNote := ln, lastRest := lr } (mds_NOTE + k) len) := by
+  simp [step, rd, h, h1, hc, mds_REST, mds_SLR, mds_FINISH, mds_DMFINISH]
 
 theorem step_slr {s : St} (h : seq[s.pc]? = some mds_SLR) :
     step seq base mj s = .ok { s with pc := s.pc + 1, out := Tk.cmd mds_SLR 0 :: s.out } := by
   simp [step, rd, h, mds_REST, mds_SLR]
 
-/-- an argument byte of `FLG` that does not switch drum mode on -/
-def drumSafe (a : Nat) : Bool := decide (a ≥ 0x80) || decide (a &&& 8 = 0)
+/-- an argument byte of `FLG` that leaves the drum flag at `d` -/
+def drumSafe (d : Bool) (a : Nat) : Bool := decide (a ≥ 0x80) || (decide (a &&& 8 ≠ 0) == d)
 
 theorem step_cmd1 {s : St} {op a : Nat} (h : seq[s.pc]? = some op) (hop : oneArgOps.contains op = true)
-    (ha : seq[s.pc + 1]? = some a) (hf : op = mds_FLG → drumSafe a = true) (hd : s.drum = false) :
+    (ha : seq[s.pc + 1]? = some a) (hf : op = mds_FLG → drumSafe s.drum a = true) :
     step seq base mj s = .ok { s with pc := s.pc + 2, out := Tk.cmd op a :: s.out } := by
   have hmem : op ∈ oneArgOps := by simpa using hop
   have key : (if op = mds_FLG ∧ a < 0x80 then { s with drum := a &&& 8 ≠ 0 } else s) = s := by
@@ -117,6 +173,14 @@ theorem step_cmd1 {s : St} {op a : Nat} (h : seq[s.pc]? = some op) (hop : oneArg
   unfold step
   simp only [rd, h, ha, f1, f2, f3, f4, f5, f6, f7, f8, f9, f10, f11, f12, hop, key, mds_REST, mds_SLR, mds_FINISH,
     mds_DMFINISH, mds_JUMP, mds_LP, mds_LPF, mds_LPB, mds_LPBL, mds_PAT, if_false, if_true, or_self]
+
+theorem step_flg {s : St} {a : Nat} (h : seq[s.pc]? = some mds_FLG) (ha : seq[s.pc + 1]? = some a) (hlt : a < 0x80) :
+    step seq base mj s =
+      .ok { s with drum := decide (a &&& 8 ≠ 0), pc := s.pc + 2, out := Tk.cmd mds_FLG a :: s.out } := by
+  have hop : (236 : Nat) ∈ oneArgOps := by decide
+  unfold step
+  simp [rd, h, ha, hlt, hop, mds_REST, mds_SLR, mds_FINISH, mds_DMFINISH, mds_JUMP, mds_LP, mds_LPF, mds_LPB, mds_LPBL,
+    mds_PAT, mds_FLG]
 
 theorem step_cmd2 {s : St} {op hi lo : Nat} (h : seq[s.pc]? = some op) (hop : twoArgOps.contains op = true)
     (h1 : seq[s.pc + 1]? = some hi) (h2 : seq[s.pc + 1 + 1]? = some lo) :
@@ -210,5 +274,171 @@ theorem run_stop_of_reach {maxTicks : Nat} {s s' : St} {st : Stop} (h : Reach se
       by_cases hc : f % 64 = 0 ∧ s.out.length > maxTicks
       · right; left; simp [run, hc]
       · simp only [run, hc, if_false, hs]; exact ih he f
+
+/-- a run that stops the way its path ends produced exactly the path's output -/
+theorem run_out_of_reach {maxTicks : Nat} {s s' : St} {st : Stop} (h : Reach seq base mj s s')
+    (he : step seq base mj s' = .error st) (hst : st ≠ .fuel ∧ st ≠ .tooManyTicks) (fuel : Nat)
+    (hr : (run seq base mj maxTicks fuel s).2 = st) : (run seq base mj maxTicks fuel s).1 = s'.out.reverse := by
+  induction h generalizing fuel with
+  | refl s =>
+    cases fuel with
+    | zero => simp [run] at hr; exact absurd hr.symm hst.1
+    | succ f =>
+      by_cases hc : f % 64 = 0 ∧ s.out.length > maxTicks
+      · simp [run, hc] at hr; exact absurd hr.symm hst.2
+      · simp [run, hc, he]
+  | @head s s1 s2 hs hm hr' ih =>
+    cases fuel with
+    | zero => simp [run] at hr; exact absurd hr.symm hst.1
+    | succ f =>
+      by_cases hc : f % 64 = 0 ∧ s.out.length > maxTicks
+      · simp [run, hc] at hr; exact absurd hr.symm hst.2
+      · simp only [run, hc, if_false, hs] at hr ⊢
+        exact ih he f hr
+
+/-- what the caller needs to know about a subroutine stream starting at `t`: entered with any
+state (drum flag `d`), it plays `T` and arrives at a `FINISH` with all stacks as on entry -/
+def SubPlays (seq : List Nat) (base mj : Nat) (d : Bool) (t : Nat) (T : List Tk) : Prop :=
+  ∀ s0 : St, s0.pc = t → s0.drum = d →
+    ∃ s1, Reach seq base mj s0 s1 ∧ Frame s0 s1 ∧ seq[s1.pc]? = some mds_FINISH ∧ s1.out = T.reverse ++ s0.out
+
+/-! ### drum mode
+
+A `Mode` says how a note byte is played: with the drum flag off (or for a tie) it sounds; with the
+drum flag on, note byte `82+j` calls the routine in slot `j`, which plays the commands `C` and ends
+with `DMFINISH k` — note `k` with the length of the calling note byte.  `rt` lists the routines
+that are known to behave like that (`Sound`). -/
+
+structure Mode where
+  dm : Bool
+  rt : Nat → Option (List Tk × Nat)
+
+def Mode.plain : Mode := ⟨false, fun _ => none⟩
+
+/-- the same routines, drum flag `d` -/
+def Mode.set (M : Mode) (d : Bool) : Mode := ⟨d, M.rt⟩
+
+@[simp] theorem Mode.set_dm (M : Mode) (d : Bool) : (M.set d).dm = d := rfl
+@[simp] theorem Mode.set_rt (M : Mode) (d : Bool) : (M.set d).rt = M.rt := rfl
+@[simp] theorem Mode.set_self (M : Mode) : M.set M.dm = M := rfl
+
+/-- ticks of note / tie byte `ty` played with length `n` -/
+def Mode.nt (M : Mode) (ty n : Nat) : List Tk :=
+  if M.dm = true ∧ ty ≥ mds_NOTE then
+    match M.rt (ty - mds_NOTE) with
+    | some (C, k) => C ++ noteTicks (mds_NOTE + k) n
+    | none => noteTicks ty n
+  else noteTicks ty n
+
+/-- note / tie byte `ty` can be played in this mode -/
+def Mode.okTy (M : Mode) (ty : Nat) : Bool := !M.dm || decide (ty < mds_NOTE) || (M.rt (ty - mds_NOTE)).isSome
+
+@[simp] theorem Mode.plain_nt (ty n : Nat) : Mode.plain.nt ty n = noteTicks ty n := by simp [Mode.nt, Mode.plain]
+@[simp] theorem Mode.plain_okTy (ty : Nat) : Mode.plain.okTy ty = true := by simp [Mode.okTy, Mode.plain]
+@[simp] theorem Mode.plain_dm : Mode.plain.dm = false := rfl
+
+theorem Mode.nt_tie (M : Mode) (n : Nat) : M.nt mds_TIE n = noteTicks mds_TIE n := by
+  simp [Mode.nt, mds_TIE, mds_NOTE]
+
+theorem Mode.okTy_tie (M : Mode) : M.okTy mds_TIE = true := by simp [Mode.okTy, mds_TIE, mds_NOTE]
+
+theorem Mode.nt_split (M : Mode) (ty m k : Nat) (hm : m ≥ 1) : M.nt ty (m + k) = M.nt ty m ++ noteTicks mds_TIE k := by
+  unfold Mode.nt
+  split
+  · split
+    · rw [noteTicks_split _ m k hm, List.append_assoc]
+    · exact noteTicks_split ty m k hm
+  · exact noteTicks_split ty m k hm
+
+/-- the routine stream at `t`: entered with the drum flag on, it plays the commands `C` and arrives
+at `DMFINISH k` with all stacks as on entry -/
+def DrumPlays (seq : List Nat) (base mj t : Nat) (C : List Tk) (k : Nat) : Prop :=
+  ∀ s0 : St, s0.pc = t → s0.drum = true →
+    ∃ s1, Reach seq base mj s0 s1 ∧ Frame s0 s1 ∧ seq[s1.pc]? = some mds_DMFINISH ∧ seq[s1.pc + 1]? = some k ∧
+      s1.out = C.reverse ++ s0.out
+
+/-- every routine of the mode is in the pointer table of `seq` and behaves as annotated -/
+def Mode.Sound (M : Mode) (seq : List Nat) (base mj : Nat) : Prop :=
+  ∀ j C k, M.rt j = some (C, k) → ∃ t, slotTarget seq base j = some t ∧ DrumPlays seq base mj t C k
+
+theorem Mode.plain_sound (seq : List Nat) (base mj : Nat) : Mode.plain.Sound seq base mj := by
+  intro j C k h; simp [Mode.plain] at h
+
+theorem Mode.set_sound {M : Mode} {seq : List Nat} {base mj : Nat} (h : M.Sound seq base mj) (d : Bool) :
+    (M.set d).Sound seq base mj := h
+
+/-- **a note / tie byte with an explicit length byte**, in any mode -/
+theorem note_len {M : Mode} (hS : M.Sound seq base mj) {s : St} {ty l : Nat} (h : seq[s.pc]? = some ty)
+    (h1 : 0x81 ≤ ty) (h2 : ty < 0xe0) (hl : seq[s.pc + 1]? = some l) (hl' : l < 0x80) (hd : s.drum = M.dm)
+    (hok : M.okTy ty = true) :
+    ∃ s', Reach seq base mj s s' ∧ Frame s s' ∧ s'.pc = s.pc + 2 ∧ s'.lastNote = some l ∧ s'.lastRest = s.lastRest ∧
+      s'.out = (M.nt ty (l + 1)).reverse ++ s.out := by
+  by_cases hc : M.dm = true ∧ ty ≥ mds_NOTE
+  · obtain ⟨hdm, hty⟩ := hc
+    have hsome : (M.rt (ty - mds_NOTE)).isSome = true := by
+      have hnl : ¬ ty < mds_NOTE := by omega
+      simpa [Mode.okTy, hdm, hnl] using hok
+    obtain ⟨⟨C, k⟩, hrt⟩ := Option.isSome_iff_exists.mp hsome
+    obtain ⟨t, ht, hplay⟩ := hS _ C k hrt
+    have hs := step_drumLen (base := base) (mj := mj) h hty h2 hl hl' (hd.trans hdm) ht
+    obtain ⟨s0, hs0, hpc0, hca0, hlo0, hdr0, hju0, hou0⟩ : ∃ s0 : St, step seq base mj s = .ok s0 ∧ s0.pc = t ∧
+        s0.calls = (s.pc + 2, some (l + 1, some l, s.lastRest)) :: s.calls ∧ s0.loops = s.loops ∧ s0.drum = s.drum ∧
+        s0.jumps = s.jumps ∧ s0.out = s.out := ⟨_, hs, rfl, rfl, rfl, rfl, rfl, rfl⟩
+    obtain ⟨s1, r1, f1, hfin, hk, ho1⟩ := hplay s0 hpc0 (hdr0.trans (hd.trans hdm))
+    have hs1 := step_dmfinish (base := base) (mj := mj) hfin hk (f1.calls.trans hca0)
+    refine ⟨_, .head hs0 (by rw [hou0]; exact Nat.le_refl _) (r1.trans (.one hs1 (by simp [emitNote_out]))),
+      ⟨?_, ?_, ?_, ?_⟩, rfl, rfl, rfl, ?_⟩
+    · show s1.loops = s.loops; rw [f1.loops, hlo0]
+    · rfl
+    · show s1.drum = s.drum; rw [f1.drum, hdr0]
+    · show s1.jumps = s.jumps; rw [f1.jumps, hju0]
+    · rw [emitNote_out]
+      show _ ++ s1.out = _
+      rw [ho1, hou0]
+      simp [Mode.nt, hdm, hty, hrt, List.reverse_append, List.append_assoc]
+  · have hd' : s.drum = false ∨ ty < mds_NOTE := by
+      by_cases hdm : M.dm = true
+      · right; have : ¬ ty ≥ mds_NOTE := fun x => hc ⟨hdm, x⟩; omega
+      · left; rw [hd]; simpa using hdm
+    have hs := step_noteLen (base := base) (mj := mj) h h1 h2 hl hl' hd'
+    refine ⟨_, .one hs (by simp [emitNote_out]), ⟨rfl, rfl, rfl, rfl⟩, rfl, rfl, rfl, ?_⟩
+    rw [emitNote_out]; simp [Mode.nt, hc]
+
+/-- **a note / tie byte without length byte**: the remembered length -/
+theorem note_bare {M : Mode} (hS : M.Sound seq base mj) {s : St} {ty l n : Nat} (h : seq[s.pc]? = some ty)
+    (h1 : 0x81 ≤ ty) (h2 : ty < 0xe0) (hl : seq[s.pc + 1]? = some l) (hl' : ¬ l < 0x80) (hn : s.lastNote = some n)
+    (hd : s.drum = M.dm) (hok : M.okTy ty = true) :
+    ∃ s', Reach seq base mj s s' ∧ Frame s s' ∧ s'.pc = s.pc + 1 ∧ s'.lastNote = s.lastNote ∧
+      s'.lastRest = s.lastRest ∧ s'.out = (M.nt ty (n + 1)).reverse ++ s.out := by
+  by_cases hc : M.dm = true ∧ ty ≥ mds_NOTE
+  · obtain ⟨hdm, hty⟩ := hc
+    have hsome : (M.rt (ty - mds_NOTE)).isSome = true := by
+      have hnl : ¬ ty < mds_NOTE := by omega
+      simpa [Mode.okTy, hdm, hnl] using hok
+    obtain ⟨⟨C, k⟩, hrt⟩ := Option.isSome_iff_exists.mp hsome
+    obtain ⟨t, ht, hplay⟩ := hS _ C k hrt
+    have hs := step_drumBare (base := base) (mj := mj) h hty h2 hl hl' hn (hd.trans hdm) ht
+    obtain ⟨s0, hs0, hpc0, hca0, hlo0, hdr0, hju0, hou0⟩ : ∃ s0 : St, step seq base mj s = .ok s0 ∧ s0.pc = t ∧
+        s0.calls = (s.pc + 1, some (n + 1, some n, s.lastRest)) :: s.calls ∧ s0.loops = s.loops ∧ s0.drum = s.drum ∧
+        s0.jumps = s.jumps ∧ s0.out = s.out := ⟨_, hs, rfl, rfl, rfl, rfl, rfl, rfl⟩
+    obtain ⟨s1, r1, f1, hfin, hk, ho1⟩ := hplay s0 hpc0 (hdr0.trans (hd.trans hdm))
+    have hs1 := step_dmfinish (base := base) (mj := mj) hfin hk (f1.calls.trans hca0)
+    refine ⟨_, .head hs0 (by rw [hou0]; exact Nat.le_refl _) (r1.trans (.one hs1 (by simp [emitNote_out]))),
+      ⟨?_, ?_, ?_, ?_⟩, rfl, hn.symm, rfl, ?_⟩
+    · show s1.loops = s.loops; rw [f1.loops, hlo0]
+    · rfl
+    · show s1.drum = s.drum; rw [f1.drum, hdr0]
+    · show s1.jumps = s.jumps; rw [f1.jumps, hju0]
+    · rw [emitNote_out]
+      show _ ++ s1.out = _
+      rw [ho1, hou0]
+      simp [Mode.nt, hdm, hty, hrt, List.reverse_append, List.append_assoc]
+  · have hd' : s.drum = false ∨ ty < mds_NOTE := by
+      by_cases hdm : M.dm = true
+      · right; have : ¬ ty ≥ mds_NOTE := fun x => hc ⟨hdm, x⟩; omega
+      · left; rw [hd]; simpa using hdm
+    have hs := step_noteBare (base := base) (mj := mj) h h1 h2 hl hl' hn hd'
+    refine ⟨_, .one hs (by simp [emitNote_out]), ⟨rfl, rfl, rfl, rfl⟩, rfl, rfl, rfl, ?_⟩
+    rw [emitNote_out]; simp [Mode.nt, hc]
 
 end Ctrmml.Codec
